@@ -274,6 +274,7 @@ type Interp struct {
 	rb         map[int]float64
 	rocTab     map[*Value][][2]*Term
 	ntpTab     map[int]*StructV
+	monDiffs   []*Term // visibility conditions of writes into monitored buffers
 	ntpVars    map[int]*Term
 }
 
@@ -363,6 +364,7 @@ func (in *Interp) runPath(prefix []decision) {
 	in.rb = nil
 	in.rocTab = nil
 	in.ntpTab = nil
+	in.monDiffs = nil
 	in.ntpVars = nil
 	in.nowSeq = 0
 	in.lastNowSec, in.lastNowNsec = nil, nil
